@@ -2451,8 +2451,44 @@ try_inline_default(arg_t *arg, asn1p_expr_t *expr, int out) {
 		REDIR(save_target);
 		return 1;
 	case ASN_BASIC_NULL:
-		//expr->marker.flags &= ~EM_INDIRECT;
-		return 0;
+		if(expr->marker.default_value == NULL
+		|| expr->marker.default_value->type != ATV_NULL)
+			break;
+		if(!out) {
+			if(C99_MODE) OUT(".default_value_cmp = ");
+			OUT("&asn_DFL_%d_cmp,\t/* Compare DEFAULT NULL */\n",
+				expr->_type_unique_index);
+			if(C99_MODE) OUT(".default_value_set = ");
+			OUT("&asn_DFL_%d_set,\t/* Set DEFAULT NULL */\n",
+				expr->_type_unique_index);
+			return 1;
+		}
+		REDIR(OT_STAT_DEFS);
+
+		OUT("static int asn_DFL_%d_cmp(const void *sptr) {\n",
+			expr->_type_unique_index);
+		INDENT(+1);
+		OUT("/* NULL has a single value: any present value is the default */\n");
+		OUT("return sptr ? 0 : -1;\n");
+		INDENT(-1);
+		OUT("}\n");
+
+		OUT("static int asn_DFL_%d_set(void **sptr) {\n",
+			expr->_type_unique_index);
+		INDENT(+1);
+		OUT("%s *st = *sptr;\n", asn1c_type_name(arg, expr, TNF_CTYPE));
+		OUT("\n");
+		OUT("if(!st) {\n");
+		OUT("\tst = (*sptr = CALLOC(1, sizeof(*st)));\n");
+		OUT("\tif(!st) return -1;\n");
+		OUT("}\n");
+		OUT("\n");
+		OUT("return 0;\n");
+		INDENT(-1);
+		OUT("}\n");
+
+		REDIR(save_target);
+		return 1;
 	default:
 	  if(etype & (ASN_STRING_KM_MASK | ASN_STRING_NKM_MASK)) {
 		if(expr->marker.default_value == NULL
